@@ -106,7 +106,7 @@ impl<const N: u32> PxE2<{ N }> {
         let (k, tmp) = Self::separate_bits_tmp(bits);
         (
             k,
-            (tmp >> (N - 1 - Self::ES)) as i32,
+            (tmp >> (31 - Self::ES)) as i32,
             ((tmp << 1) | 0x4000_0000) & 0x7FFF_FFFF,
         )
     }
